@@ -280,7 +280,11 @@ Definition get_labels_step (c : csettings) (g : glstate) (o : op) : glstate :=
             end)
   | cl =>
       if strips_debug c && is_debugging_op cl then g       (* `continue`: no overflow test either *)
-      else keep (mkgl (gl_st g) (gl_consts g) (gl_pc g + operation_length o) (gl_dc g) (gl_msgs g))
+      else
+        let npc := gl_pc g + operation_length o in
+        keep (mkgl (gl_st g) (gl_consts g) npc (gl_dc g)
+                   (if (65535 <? npc) && (gl_pc g <=? 65535)
+                    then gl_msgs g ++ [err "past the end of the 16-bit address space" [] LocOp] else gl_msgs g))
   end.
 
 Definition get_labels (c : csettings) (ops : list op) : symtab * list msg :=
